@@ -66,9 +66,15 @@ def scenario_key(rec):
     return repr([rec[k] for k in ("smp", "mu0", "var0", "w0", "kind", "rel", "vfl", "uw", "um", "uv", "cur")])
 
 
-def run_real(em, rec):
-    """Execute the recorded M-step on a real machine; returns (weights, means, variances)."""
+def run_real(em, rec, via=None):
+    """Execute the recorded M-step on a real machine; returns (weights, means, variances).
+    via = "function": ml_gmm_m_step / map_gmm_m_step with explicit options; via = "machine": the module-level
+    m_step(statistics, machine) reading every option from the estimator; None: chosen by a hash of the scenario."""
+    import zlib
+    from bob.learn.em.gmm import m_step as module_m_step
     from bob.learn.em.gmm import map_gmm_m_step, ml_gmm_m_step
+    if via is None:
+        via = ("function", "machine")[zlib.crc32(repr(scenario_key(rec)).encode()) % 2]
     C = 2
     cthr = float(CTHR)
     vfl = float(fr(rec["vfl"]))
@@ -82,19 +88,33 @@ def run_real(em, rec):
         m.variance_thresholds = vfl
         m.means = col(rec["mu0"])
         m.variances = col(rec["var0"])
-        ml_gmm_m_step(m, st, update_means=rec["um"], update_variances=rec["uv"], update_weights=rec["uw"],
-                      mean_var_update_threshold=cthr)
+        if via == "machine":
+            m.update_means, m.update_variances, m.update_weights = rec["um"], rec["uv"], rec["uw"]
+            module_m_step([st, em.GMMStats(C, 1)], m)
+        else:
+            ml_gmm_m_step(m, st, update_means=rec["um"], update_variances=rec["uv"], update_weights=rec["uw"],
+                          mean_var_update_threshold=cthr)
     else:
         prior = em.GMMMachine(C, weights=vec(rec["w0"]), mean_var_update_threshold=cthr)
         prior.variance_thresholds = vfl
         prior.means = col(rec["mu0"])
         prior.variances = col(rec["var0"])
         val = float(fr(rec["rel"]["val"]))
-        m = em.GMMMachine(C, trainer="map", ubm=prior, mean_var_update_threshold=cthr)
-        m.means = col(rec["cur"])       # a warm start: the machine's means need not be the prior's
-        map_gmm_m_step(m, st, update_means=rec["um"], update_variances=rec["uv"], update_weights=rec["uw"],
-                       reynolds_adaptation=rec["rel"]["reynolds"], relevance_factor=val, alpha=val,
-                       mean_var_update_threshold=cthr)
+        if via == "machine":
+            # the same step through the estimator's own configuration: the module-level m_step reads the switches,
+            # the relevance factor / fixed ratio and the count threshold from the machine
+            m = em.GMMMachine(C, trainer="map", ubm=prior, mean_var_update_threshold=cthr,
+                              update_means=rec["um"], update_variances=rec["uv"], update_weights=rec["uw"],
+                              map_relevance_factor=val if rec["rel"]["reynolds"] else None,
+                              map_alpha=0.5 if rec["rel"]["reynolds"] else val)
+            m.means = col(rec["cur"])
+            module_m_step([st, em.GMMStats(C, 1)], m)
+        else:
+            m = em.GMMMachine(C, trainer="map", ubm=prior, mean_var_update_threshold=cthr)
+            m.means = col(rec["cur"])       # a warm start: the machine's means need not be the prior's
+            map_gmm_m_step(m, st, update_means=rec["um"], update_variances=rec["uv"], update_weights=rec["uw"],
+                           reynolds_adaptation=rec["rel"]["reynolds"], relevance_factor=val, alpha=val,
+                           mean_var_update_threshold=cthr)
     return np.asarray(m.weights, dtype=float), np.asarray(m.means, dtype=float)[:, 0], np.asarray(m.variances, dtype=float)[:, 0]
 
 
